@@ -164,6 +164,16 @@ func (w *world) host() *host {
 			h.addProofParent(x)
 		}
 	}
+	var cur []held
+	for _, l := range w.leaves {
+		cur = append(cur, held{l.el, l.spent})
+	}
+	h.fund, _ = h.funding(cur)
+	if postTmpl.Network != nil {
+		ps := postTmpl
+		ps.Elements = w.acc
+		h.post = newHost(ps, w.K, w.seed)
+	}
 	return h
 }
 
